@@ -11,7 +11,7 @@ CHECKS = {
          "DESIGN.md §4 C01"),
  "C02": ("proptest view-space triangle soups through the library's own projection/viewport matrices x all Context flags, catch_unwind + sentinel comparison outside the viewport + NaN scan of the depth buffer",
          "Generated-input search over 120k (5M) scenes in the property's numeric domain with adversarial coordinate classes (exactly on near/far/side planes, behind the eye, coincident, sub-pixel, huge); any panic, any write outside the viewport rectangle or target window, any NaN depth is a violation.",
-         "Trusted: sentinel buffers and catch_unwind; the domain bounds are the property's own.",
+         "Trusted: sentinel buffers and catch_unwind; the domain bounds are the property's own. spans-direct: 100k+150k (3M+4M) screen-space triangles (C04's class mixture, and steep slivers whose tip sits within ulps of a pixel centre so that tri_fill emits spans with end < start) scan-converted and handed to Buf2<u32>, MutSlice2<u32> and Framebuf: no panic, identical pixels, Throughput.i = span length. Twin builds: libm, mm.",
          "DESIGN.md §4 C02"),
  "C03": ("exhaustive 3^9x4^3 coordinate grid + proptest clip-space triangles and batches, f64 oracle in the input triangle's barycentric chart (containment, attribute = linear field, winding, point membership, batch independence)",
          "Generated-input search: 1.26M-triangle exhaustive grid plus 220k (11M) generated triangles/batches; each output vertex, output triangle and ~40 membership points per input are decided against the f64 chart oracle; all-inside returned bit-for-bit, all-outside-one-plane empty, clip(batch) == concatenation bit-for-bit.",
@@ -19,7 +19,7 @@ CHECKS = {
          "DESIGN.md §4 C03"),
  "C04": ("exhaustive half/quarter-pixel lattice enumeration against an exact integer edge-function oracle + proptest class-mixture triangles and meshes against f64 signed edge distances",
          "Generated-input search: every ordered vertex triple of the half-pixel lattice on [0,4]^2 (thorough: [0,6]^2 and the quarter-pixel lattice on [0,3]^2) is decided exactly; 150k (6M) generated triangles and 20k (1M) shared-edge meshes are decided against the f64 oracle with the property's 0.001 px band. Establishes the property on everything generated, never absence of violations elsewhere.",
-         "Trusted: the f64/integer reference geometry in harness/src/common/geo.rs and c04.rs; domain decisions D-a (band widened beyond 128 px) and D-b (non-negative coordinates).",
+         "Trusted: the f64/integer reference geometry in harness/src/common/geo.rs and c04.rs; domain decisions D-a (band widened beyond 128 px) and D-b (non-negative coordinates). far-vertex: 1.5k (40k) triangles with two vertices near the origin and the third up to 2^20 px below; the first 64 rows are decided against a band that follows the local coordinate magnitude (66 ulp of the largest |x| reached in those rows, at least 0.001 px) instead of D-a's global one. Twin builds: libm, mm.",
          "DESIGN.md §4 C04"),
  "C05": ("proptest class-mixture triangles x depths x attribute types, every fragment compared with the f64 plane / perspective-division oracle",
          "Generated-input search over 120k (5M) triangles with per-vertex reciprocal depths and seven attribute types; every fragment's position, depth and attribute is compared with the f64 plane oracle, NaN/inf forbidden for area > 1e-6 px^2.",
